@@ -8,7 +8,7 @@ PROP = "C15"
 MODEL_VO = ["theories/Model/PdoLink.vo"]
 COQ_IMPORTS = "From CV Require Import Model.Codec Model.Pdo Model.PdoLink."
 COQ_RUN = "run_link"
-ANCHORS = [("canopen.pdo.base", "PdoMap.on_message"), ("canopen.pdo.base", "PdoMap.transmit"), ("canopen.pdo.base", "PdoMap.remote_request"), ("canopen.pdo.base", "PdoMap.subscribe"), ("canopen.pdo.base", "PdoMap.add_callback"), ("canopen.pdo.base", "PdoMap.wait_for_reception"), ("canopen.network", "Network.subscribe"), ("canopen.network", "Network.notify")]
+ANCHORS = [("canopen.pdo.base", "PdoMap.__init__"), ("canopen.pdo.base", "PdoMap.on_message"), ("canopen.pdo.base", "PdoMap.transmit"), ("canopen.pdo.base", "PdoMap.remote_request"), ("canopen.pdo.base", "PdoMap.subscribe"), ("canopen.pdo.base", "PdoMap.add_callback"), ("canopen.pdo.base", "PdoMap.wait_for_reception"), ("canopen.network", "Network.subscribe"), ("canopen.network", "Network.notify")]
 COQ_CASE_TYPE = "link_case"
 RULE = ("case = up to 4 producer maps (LocalNode TPDOs) and 4 consumer maps (RemoteNode TPDOs) on one synchronous bus, each with "
         "a COB-ID (distinct or colliding), enabled / RTR flags and a bit layout as in C05, then a sequence of write / transmit / "
@@ -125,15 +125,17 @@ def impl(c):
                 pm = objs[op[1]]
                 out.append([bool(pm.is_received), pm.timestamp, pm.period, bytes(pm.data)])
             elif t == "wait":
-                # runtime part: a second thread delivers a frame while this thread waits
+                # runtime part: a second thread delivers frames while this thread waits; op = ["wait", k, frames, timeout]
+                # with frames = [[can_id, data, ts, delay_ms], ...]
                 pm = objs[op[1]]
                 def feeder():
                     import time
-                    time.sleep(0.02)
-                    net.notify(op[2], bytearray(op[3]), op[4])
+                    for cid, d, ts_, delay in op[2]:
+                        time.sleep(delay / 1000.0)
+                        net.notify(cid, bytearray(d), ts_)
                 th = threading.Thread(target=feeder)
                 th.start()
-                r = pm.wait_for_reception(timeout=op[5])
+                r = pm.wait_for_reception(timeout=op[3])
                 th.join()
                 out.append(r)
             else:
@@ -237,11 +239,13 @@ def oracle(c, o):
                 return (f"link_map_{what}_wrong", f"{where}: map state {res!r}, expected {exp!r}")
         elif t == "wait":
             m = maps[op[1]]
-            hit = any(sc == op[2] and k == op[1] for sc, k in subs) and m.cob == op[2] and not m.task
-            m_before_ts = m.ts
-            arrive(op[2], bytes(op[3]), op[4])
-            m.received = hit       # wait_for_reception clears the flag before waiting
-            exp = op[4] if hit else None
+            exp = None
+            for cid, d, ts_, delay in op[2]:
+                hit = any(sc == cid and k == op[1] for sc, k in subs) and m.cob == cid and not m.task
+                arrive(cid, bytes(d), ts_)
+                if hit and exp is None:
+                    exp = ts_
+            m.received = exp is not None       # wait_for_reception clears the flag before waiting
             if res != exp:
                 return ("link_wait_wrong", f"{where}: wait returned {res!r}, expected {exp!r}")
     if sent != exp_sent:
@@ -351,13 +355,21 @@ def gen_cases(rng, tier):
             ops.append(["st", kk])
             ops.append(["r", kk, rng.randrange(len(maps[kk]["layout"]))])
         cases.append(dict(kind="link", maps=maps, ops=ops))
-    # runtime part: a waiting reader is woken by reception from a second thread (oracle only)
-    for i in range({"quick": 6, "thorough": 40, "search": 0}[tier]):
+    # runtime part: a waiting reader is woken by reception on ITS map from a second thread (oracle only)
+    for i in range({"quick": 8, "thorough": 40, "search": 4}[tier]):
         lay = [[U8, 8], [U16, 16]]
-        maps = [dict(cob=0x185, en=True, rtr=True, layout=lay) for _ in range(2 * NPROD)]
-        match = i % 3 != 2
-        ops = [["sub", NPROD], ["wait", NPROD, 0x185 if match else 0x186, [1, 2, 3], 77 + i, 0.5 if match else 0.05],
-               ["st", NPROD]]
+        maps = [dict(cob=0x185 + 0x100 * (k % NPROD), en=True, rtr=True, layout=lay) for k in range(2 * NPROD)]
+        own, other = 0x185, 0x285
+        variant = i % 4
+        if variant == 0:      # own frame only
+            frames, timeout = [[own, [1, 2, 3], 77 + i, 20]], 2.0
+        elif variant == 1:    # a frame for another subscribed map arrives first, then the awaited one
+            frames, timeout = [[other, [9, 9, 9], 50 + i, 20], [own, [1, 2, 3], 77 + i, 60]], 2.0
+        elif variant == 2:    # only foreign frames: the wait times out
+            frames, timeout = [[other, [9, 9, 9], 50 + i, 10], [0x123, [4], 51 + i, 10]], 0.15
+        else:                 # two frames for the awaited map: the first one is reported
+            frames, timeout = [[own, [1, 2, 3], 77 + i, 20], [own, [4, 5, 6], 99 + i, 30]], 2.0
+        ops = [["sub", NPROD], ["sub", NPROD + 1], ["wait", NPROD, frames, timeout], ["st", NPROD + 1]]
         cases.append(dict(kind="wait", maps=maps, ops=ops, model=False))
     return cases
 
